@@ -1,20 +1,29 @@
-// E2 support: a wrapper around the *real* async_lock::RwLock.  With no scheduler active it is a
-// transparent pass-through.  (The scheduling shim is added in sched_impl below.)
+// A wrapper around the *real* async_lock::RwLock (its try_read/try_write and guards are used, so
+// reader/writer exclusion is the library's own).  Waiting is done by the wrapper: a contended
+// acquisition waits for the next release of *this* lock and retries.  Two reasons:
+//  * async-lock's readers re-notify each other while a writer holds the lock; under tokio's paused
+//    clock those wake-ups keep the driver from auto-advancing time (measured: a livelock of the
+//    harness, not of acmed), and under E2 they would make blocked tasks look runnable;
+//  * E2 must know exactly when a task is blocked on a lock ("enabled iff try-acquire succeeds") and
+//    explores every acquisition order itself, a superset of the orders the fair queue allows.
 use std::ops::{Deref, DerefMut};
 
 pub struct RwLock<T> {
 	inner: async_lock::RwLock<T>,
 	id: usize,
+	released: std::sync::Arc<tokio::sync::Notify>,
 }
 
 pub struct ReadGuard<'a, T> {
 	g: Option<async_lock::RwLockReadGuard<'a, T>>,
 	id: usize,
+	released: std::sync::Arc<tokio::sync::Notify>,
 }
 
 pub struct WriteGuard<'a, T> {
 	g: Option<async_lock::RwLockWriteGuard<'a, T>>,
 	id: usize,
+	released: std::sync::Arc<tokio::sync::Notify>,
 }
 
 impl<T> RwLock<T> {
@@ -22,38 +31,47 @@ impl<T> RwLock<T> {
 		RwLock {
 			inner: async_lock::RwLock::new(t),
 			id: super::sched_impl::new_lock_id(),
+			released: std::sync::Arc::new(tokio::sync::Notify::new()),
 		}
 	}
 
 	pub async fn read(&self) -> ReadGuard<'_, T> {
 		super::sched_impl::before_acquire(self.id, false).await;
-		let g = match self.inner.try_read() {
-			Some(g) => g,
-			None => {
-				super::sched_impl::blocked(self.id, false);
-				self.inner.read().await
+		let g = loop {
+			let notified = self.released.notified();
+			tokio::pin!(notified);
+			notified.as_mut().enable();
+			if let Some(g) = self.inner.try_read() {
+				break g;
 			}
+			super::sched_impl::blocked(self.id, false);
+			notified.await;
 		};
 		super::sched_impl::acquired(self.id, false);
 		ReadGuard {
 			g: Some(g),
 			id: self.id,
+			released: self.released.clone(),
 		}
 	}
 
 	pub async fn write(&self) -> WriteGuard<'_, T> {
 		super::sched_impl::before_acquire(self.id, true).await;
-		let g = match self.inner.try_write() {
-			Some(g) => g,
-			None => {
-				super::sched_impl::blocked(self.id, true);
-				self.inner.write().await
+		let g = loop {
+			let notified = self.released.notified();
+			tokio::pin!(notified);
+			notified.as_mut().enable();
+			if let Some(g) = self.inner.try_write() {
+				break g;
 			}
+			super::sched_impl::blocked(self.id, true);
+			notified.await;
 		};
 		super::sched_impl::acquired(self.id, true);
 		WriteGuard {
 			g: Some(g),
 			id: self.id,
+			released: self.released.clone(),
 		}
 	}
 }
@@ -68,6 +86,7 @@ impl<T> Deref for ReadGuard<'_, T> {
 impl<T> Drop for ReadGuard<'_, T> {
 	fn drop(&mut self) {
 		self.g.take();
+		self.released.notify_waiters();
 		super::sched_impl::released(self.id, false);
 	}
 }
@@ -88,6 +107,7 @@ impl<T> DerefMut for WriteGuard<'_, T> {
 impl<T> Drop for WriteGuard<'_, T> {
 	fn drop(&mut self) {
 		self.g.take();
+		self.released.notify_waiters();
 		super::sched_impl::released(self.id, true);
 	}
 }
